@@ -1158,6 +1158,7 @@ pub fn run(ctx: &mut Ctx, prop: &str) -> Report {
 			s.tie_csr = true;
 			s.tie_crl = true;
 			s.malformed_stream(n(400, 20000));
+			s.parse_stream(n(300, 20000));
 			s.random_certs(n(200, 8000));
 			s.random_csrs(n(100, 4000));
 			s.random_crls(n(100, 4000));
@@ -1170,6 +1171,167 @@ pub fn run(ctx: &mut Ctx, prop: &str) -> Report {
 }
 
 impl<'a> Suite<'a> {
+	/// untrusted bytes into every parsing entry point: valid artefacts, every single-byte
+	/// mutation of them, truncations, correctly re-signed requests with unusual algorithm
+	/// identifiers, random bytes.  Only the outcome class is looked at: a panic is a violation.
+	#[cfg(not(feature = "nocrypto"))]
+	pub fn parse_stream(&mut self, n_random: usize) {
+		use rustls_pki_types::{PrivateKeyDer, PrivatePkcs8KeyDer};
+		type Entry = (&'static str, Box<dyn Fn(&[u8]) -> bool>);
+		let text = |b: &[u8]| String::from_utf8_lossy(b).to_string();
+		let entries: Vec<Entry> = vec![
+			("from_ca_cert_der", Box::new(|b| CertificateParams::from_ca_cert_der(&b.to_vec().into()).is_ok())),
+			("csr_from_der", Box::new(|b| CertificateSigningRequestParams::from_der(&b.to_vec().into()).is_ok())),
+			("keypair_try_from_bytes", Box::new(|b| KeyPair::try_from(b).is_ok())),
+			("keypair_try_from_private_key_der", Box::new(|b| PrivateKeyDer::try_from(b.to_vec()).map(|d| KeyPair::try_from(&d).is_ok()).unwrap_or(false))),
+			("keypair_from_pkcs8_der_and_sign_algo", Box::new(|b| {
+				let d = PrivatePkcs8KeyDer::from(b.to_vec());
+				keys::build_algs().iter().any(|a| KeyPair::from_pkcs8_der_and_sign_algo(&d, a).is_ok())
+			})),
+			("keypair_from_der_and_sign_algo", Box::new(|b| {
+				PrivateKeyDer::try_from(b.to_vec()).map(|d| keys::build_algs().iter().any(|a| KeyPair::from_der_and_sign_algo(&d, a).is_ok())).unwrap_or(false)
+			})),
+			("spki_from_der", Box::new(|b| SubjectPublicKeyInfo::from_der(b).is_ok())),
+		];
+		let text_entries: Vec<Entry> = vec![
+			("from_ca_cert_pem", Box::new(move |b| CertificateParams::from_ca_cert_pem(&text(b)).is_ok())),
+			("csr_from_pem", Box::new(move |b| CertificateSigningRequestParams::from_pem(&String::from_utf8_lossy(b)).is_ok())),
+			("keypair_from_pem", Box::new(move |b| KeyPair::from_pem(&String::from_utf8_lossy(b)).is_ok())),
+			("keypair_from_pem_and_sign_algo", Box::new(move |b| {
+				let t = String::from_utf8_lossy(b).to_string();
+				keys::build_algs().iter().any(|a| KeyPair::from_pem_and_sign_algo(&t, a).is_ok())
+			})),
+			("spki_from_pem", Box::new(move |b| SubjectPublicKeyInfo::from_pem(&String::from_utf8_lossy(b)).is_ok())),
+		];
+		// seeds
+		let key = self.ctx.key("ed25519");
+		let ca = {
+			let mut p = gen_params(&mut self.rng);
+			p.ca = Ca::Ca(Some(1));
+			p.nb = Dt::ymd(2020, 1, 1);
+			p.na = Dt::ymd(2040, 1, 1);
+			p.real().and_then(|r| r.self_signed(&key).ok())
+		};
+		let mut simple = PCert::default_like();
+		simple.ca = Ca::Ca(None);
+		let simple_ca = simple.real().unwrap().self_signed(&key).unwrap();
+		let csr = {
+			let mut p = PCert::default_like();
+			p.san = vec![San::Dns("a.example".into()), San::Ip("192.0.2.1".parse().unwrap())];
+			p.ku = vec![KeyUsagePurpose::DigitalSignature];
+			p.eku = vec![ExtendedKeyUsagePurpose::ServerAuth];
+			p.real().unwrap().serialize_request(&key).unwrap()
+		};
+		let mut der_seeds: Vec<(String, Vec<u8>)> = vec![
+			("simple-ca".into(), simple_ca.der().to_vec()),
+			("csr".into(), csr.der().to_vec()),
+			("pkcs8-ed25519".into(), key.serialize_der()),
+			("pkcs8-p256".into(), self.ctx.key("ecdsaP256").serialize_der()),
+			("spki-ed25519".into(), key.public_key_der()),
+			("spki-p384".into(), self.ctx.key("ecdsaP384").public_key_der()),
+		];
+		if let Some(c) = &ca {
+			der_seeds.push(("random-ca".into(), c.der().to_vec()));
+		}
+		for (n, d) in crate::props::c06::resigned_variants(&self.ctx.rsa_fixture.clone()) {
+			der_seeds.push((format!("resigned:{}", n), d));
+		}
+		let text_seeds: Vec<(String, Vec<u8>)> = vec![
+			("ca-pem".into(), simple_ca.pem().into_bytes()),
+			("csr-pem".into(), csr.pem().unwrap().into_bytes()),
+			("key-pem".into(), key.serialize_pem().into_bytes()),
+			("spki-pem".into(), key.public_key_pem().into_bytes()),
+		];
+		let mut offers = 0u64;
+		let mut accepted = 0u64;
+		let mut run = |this: &mut Self, entries: &Vec<Entry>, origin: &str, bytes: &[u8]| {
+			for (name, f) in entries {
+				offers += 1;
+				match std::panic::catch_unwind(std::panic::AssertUnwindSafe(|| f(bytes))) {
+					Ok(true) => accepted += 1,
+					Ok(false) => {},
+					Err(_) => {
+						let site = panic_site(&crate::last_panic());
+						this.rep.violate(&format!("C10:panic:parse:{}:{}", name, site), "a parsing entry point panics on externally supplied bytes", format!("entry={} origin={}\nbytes={}\n{}", name, origin, hex(bytes), crate::last_panic()));
+					},
+				}
+			}
+		};
+		let thorough = self.ctx.thorough;
+		for (set, entries, is_text) in [(&der_seeds, &entries, false), (&text_seeds, &text_entries, true)] {
+			for (name, seed) in set.iter() {
+				run(self, entries, name, seed);
+				self.rep.case(&format!("parse-seed {} {}", name, hex(seed)), true);
+				let stride = if thorough || seed.len() < 400 { 1 } else { 3 };
+				for i in (0..seed.len()).step_by(stride) {
+					let muts: Vec<Vec<u8>> = {
+						let mut v = Vec::new();
+						for bit in [0x01u8, 0x80] {
+							let mut m = seed.clone();
+							m[i] ^= bit;
+							v.push(m);
+						}
+						for val in if is_text { [b'A', b'\n'] } else { [0x00u8, 0xff] } {
+							if seed[i] != val {
+								let mut m = seed.clone();
+								m[i] = val;
+								v.push(m);
+							}
+						}
+						let mut m = seed.clone();
+						m.insert(i, if is_text { b'=' } else { 0x00 });
+						v.push(m);
+						let mut m = seed.clone();
+						m.remove(i);
+						v.push(m);
+						v
+					};
+					for m in muts {
+						run(self, entries, &format!("{}:mutated@{}", name, i), &m);
+					}
+				}
+				for cut in 1..seed.len().min(if thorough { 400 } else { 40 }) {
+					run(self, entries, &format!("{}:truncated-{}", name, cut), &seed[..seed.len() - cut]);
+				}
+			}
+		}
+		// random bytes, short and DER-looking
+		for _ in 0..n_random {
+			let len = self.rng.below(64) as usize;
+			let mut b: Vec<u8> = (0..len).map(|_| self.rng.next() as u8).collect();
+			if self.rng.chance(1, 2) && len > 2 {
+				b[0] = 0x30;
+				b[1] = (len - 2) as u8;
+			}
+			run(self, &entries, "random", &b);
+			run(self, &text_entries, "random", &b);
+		}
+		// string-type byte constructors
+		for _ in 0..n_random {
+			let len = self.rng.below(12) as usize;
+			let b: Vec<u8> = (0..len).map(|_| self.rng.next() as u8).collect();
+			let r = std::panic::catch_unwind(|| {
+				let _ = rcgen::string::BmpString::from_utf16be(b.clone());
+				let _ = rcgen::string::UniversalString::from_utf32be(b.clone());
+				let s = String::from_utf8_lossy(&b).to_string();
+				let _ = rcgen::string::PrintableString::try_from(s.clone());
+				let _ = rcgen::string::Ia5String::try_from(s.clone());
+				let _ = rcgen::string::TeletexString::try_from(s);
+			});
+			offers += 5;
+			if r.is_err() {
+				self.rep.violate("C10:panic:parse:string-constructor", "a string-type constructor panics", hex(&b));
+			}
+		}
+		self.rep.add("parse_offers", offers);
+		self.rep.add("parse_accepted", accepted);
+		self.rep.evaluations += offers;
+		self.rep.exhaustive.push("parse stream: every single-byte flip/overwrite/insert/delete and truncation of a CA certificate, a CSR, PKCS#8 keys, SPKIs and their PEM texts, plus 12 correctly re-signed CSRs with unusual algorithm identifiers, into all 12 parsing entry points".into());
+	}
+
+	#[cfg(feature = "nocrypto")]
+	pub fn parse_stream(&mut self, _n_random: usize) {}
+
 	/// exported SubjectPublicKeyInfo of every algorithm: canonical DER, RFC encoding
 	pub fn spki_sweep(&mut self) {
 		for a in keys::build_algs() {
